@@ -263,3 +263,24 @@ extend("C02", "A-SIZED families", "end-to-end sized-integer families on optional
 extend("C02", "B-FLAG", "the CLI hands the generator the tag list the user wrote: list flags split commas and accumulate, each flag reaches its Config field.")
 extend("C17", "B-FLAG", "the tag list (which both decoders bind by) reaches Config.Tags as written.")
 extend("C16", "", "list flags are registered with StringSliceVar(P).")
+
+# ---- round 6 additions
+extend("C15", "B-SIZED / A-SIZED with fractional and exclusive bounds (exact comparison of rounded symbolic numbers: cells cut where ceil/floor/round change)",
+       "the width table is decided for 5 forms per side (absent, inclusive integral / fractional, numeric exclusive integral / fractional) and the end-to-end families also run with fractional limits: the type is "
+       "chosen for the integers the bounds admit (fixed 00797ef: maximum 254.6 became uint8 with the check dropped, exclusiveMaximum 256.2 became uint8).")
+extend("C02", "A-COLLECT, A-DEF guard clauses, A-LEGACY ($defs as written)", "the remainder decode targets the collector (a field bound to no key), never a declared property; a stated value is never replaced by the default "
+       "(the guard names the property's own key); a legacy `definitions` entry never replaces a `$defs` entry of the same name; fractional sized bounds as in C15.")
+extend("C14", "A-COLLECT", "a property named additionalProperties / additional_properties is never taken for the collector, with or without the keyword.")
+extend("C12", "B-DET3 cut-path clause", "filepath.Base is applied to the file path itself, not to a path that was shortened at its end first (a file named like a resolve extension would yield the directory's name).")
+extend("C07", "A-NILG nil-slice clause", "an optional or nullable array that is absent / null is not measured against minItems; arrays whose field is renamed by goJSONSchema.identifier keep their checks; required nullable arrays.")
+extend("C05", "", "numerics whose field is renamed by goJSONSchema.identifier keep every check.")
+extend("C06", "A-CTX:cut, pattern-text forks with universality probes", "the pattern's text reaches its literal in one piece (not cut into lines and re-indented by the emitter); where the generator compares the pattern's text with "
+       "a constant, both outcomes are worlds and the check may be dropped only for a text that matches every probe string; strings renamed by goJSONSchema.identifier keep their checks.")
+extend("C08", "A-LOUD on hostile enums", "an empty enum, or a typed enum listing a non-primitive, is refused in every position (two known findings shared with C18: inside a primitive allOf branch).")
+extend("C04", "", "an allOf branch given by reference to a required-only definition is either refused or its required names are enforced.")
+extend("C11", MULTI, "referenced required-only branch (refuse or enforce); a recursive definition of another file as an allOf branch keeps its self-reference.")
+extend("C10", "A-LEGACY ($defs as written), same-node type clause", "a recursive definition of another file merged into a composition: the self-reference inside it has the same Go type in the definition's struct and in the merged struct "
+       "(it is resolved against the document it is written in); no alias for a definition whose own name is taken (fixed 412b1de).")
+extend("C13", "A-LEGACY overrides clause", "with both spellings present the legacy keyword never changes what the current one stated (not rescuable by a fold elsewhere).")
+extend("C18", "", "hostile kinds: unknown type next to a primitive enum, a null one composition further down (fixed 65994c0: SIGSEGV in determineTypeName).")
+extend("C19", "A-TOTAL direct-call classes", "pkg/types decoders also return for the empty input and the lone quote (fixed: slice [1:0] panic).")
